@@ -179,12 +179,14 @@ theorem closed_program_leaves_objects_idle (es : List Ev)
   exact ⟨a, b, d⟩
 
 /-- **A block is begin; commands; commit-or-rollback**: `async with cache.transaction(mode): <commands>`
-leaves the backend `commit` (normal exit) or `rollback` (exception) of the transaction's run leaves, and
-the task outside any transaction. -/
-theorem block_is_run_then_end (b : Mem) (timeout : Nat) (m : TxMode) (ops : List Op) (exc : Bool) :
-    let c := (Ctx.init b timeout).run (.enter m :: (ops.map .cmd ++ [.exit exc]))
+leaves the backend `commit` (the body ran to its end) or `rollback` (an exception of ANY kind leaves the block:
+an `Exception`, a `BaseException` that is not an `Exception`, or the `CancelledError` of a task cancelled at a
+suspension point inside the body — `Leave` lists all kinds there are) of the transaction's run leaves, and the task
+outside any transaction. -/
+theorem block_is_run_then_end (b : Mem) (timeout : Nat) (m : TxMode) (ops : List Op) (how : Leave) :
+    let c := (Ctx.init b timeout).run (.enter m :: (ops.map .cmd ++ [.exit how]))
     c.1.inTx = false ∧
-    c.1.st.b = (if exc then ((TxSt.begin_ b m 1 timeout).run ops).1.rollback
+    c.1.st.b = (if how.raises then ((TxSt.begin_ b m 1 timeout).run ops).1.rollback
                 else ((TxSt.begin_ b m 1 timeout).run ops).1.commit).b := by
   have : ∀ (c : Ctx) (es : List Ev) (e : Ev), (c.run (es ++ [e])).1 = ((c.run es).1.step e).1 := by
     intro c es; induction es generalizing c with
@@ -193,13 +195,13 @@ theorem block_is_run_then_end (b : Mem) (timeout : Nat) (m : TxMode) (ops : List
   simp only [Ctx.run, Ctx.step, Ctx.init, Bool.false_eq_true, if_false]
   rw [this, Ctx.run_cmds ops _ rfl]
   simp only [Ctx.step]
-  cases exc <;> simp [TxSt.begin_]
+  cases how.raises <;> simp [TxSt.begin_]
 
 /-- the same for a block opened on a shared context object that is not in use -/
-theorem shared_block_is_run_then_end (b : Mem) (timeout : Nat) (o : Nat) (m : TxMode) (ops : List Op) (exc : Bool) :
-    let c := (Ctx.init b timeout).run (.enterObj o m :: (ops.map .cmd ++ [.exit exc]))
+theorem shared_block_is_run_then_end (b : Mem) (timeout : Nat) (o : Nat) (m : TxMode) (ops : List Op) (how : Leave) :
+    let c := (Ctx.init b timeout).run (.enterObj o m :: (ops.map .cmd ++ [.exit how]))
     c.1.inTx = false ∧ c.1.objs o = ⟨false, 0⟩ ∧
-    c.1.st.b = (if exc then ((TxSt.begin_ b m 1 timeout).run ops).1.rollback
+    c.1.st.b = (if how.raises then ((TxSt.begin_ b m 1 timeout).run ops).1.rollback
                 else ((TxSt.begin_ b m 1 timeout).run ops).1.commit).b := by
   have : ∀ (c : Ctx) (es : List Ev) (e : Ev), (c.run (es ++ [e])).1 = ((c.run es).1.step e).1 := by
     intro c es; induction es generalizing c with
@@ -208,7 +210,46 @@ theorem shared_block_is_run_then_end (b : Mem) (timeout : Nat) (o : Nat) (m : Tx
   simp only [Ctx.run, Ctx.step, Ctx.init, Bool.false_eq_true, if_false]
   rw [this, Ctx.run_cmds ops _ rfl]
   simp only [Ctx.step]
-  cases exc <;> simp [TxSt.begin_, Ctx.setObj]
+  cases how.raises <;> simp [TxSt.begin_, Ctx.setObj]
+
+/-- **An exit with an exception of any kind is the identity on the store** (the rollback theorem, for all the
+kinds of `Leave`): whatever leaves the block — an `Exception`, a `BaseException` that is not an `Exception`
+(`KeyboardInterrupt`, a user subclass, …), or `asyncio.CancelledError` because the task was cancelled while it was
+suspended inside the body after some writes — afterwards every key of the store, user key or lock key, is exactly what
+it was before the block (aged by the time that passed), no transaction is current in the task's context, and (for a
+shared context object) the object is idle again.  No proviso.  In particular a cancelled, half-done transaction is
+never committed (seeded changes C03-5 / C05-4 decided with `isinstance(exc_value, Exception)` and did commit it). -/
+theorem exit_with_any_exception_is_identity (K : List Key) (b : Mem) (ops : List Op) (hs : TxSetup K b ops)
+    (timeout : Nat) (m : TxMode) (how : Leave) (hx : how ≠ .ok) (k : Key) :
+    let c := (Ctx.init b timeout).run (.enter m :: (ops.map .cmd ++ [.exit how]))
+    let c' := (Ctx.init b timeout).run (.enterObj 0 m :: (ops.map .cmd ++ [.exit how]))
+    (c.1.inTx = false ∧ c.1.st.b.view k = ({ b with now := endTime b.now ops } : Mem).view k) ∧
+    (c'.1.inTx = false ∧ c'.1.objs 0 = ⟨false, 0⟩ ∧ c'.1.st.b.view k = ({ b with now := endTime b.now ops } : Mem).view k) := by
+  have hr : how.raises = true := by cases how <;> simp_all [Leave.raises]
+  have h1 := block_is_run_then_end b timeout m ops how
+  have h2 := shared_block_is_run_then_end b timeout 0 m ops how
+  simp only [hr, if_true] at h1 h2
+  refine ⟨⟨h1.1, ?_⟩, h2.1, h2.2.1, ?_⟩
+  · rw [h1.2]; exact rollback_is_identity K b ops hs m 1 timeout k
+  · rw [h2.2.2]; exact rollback_is_identity K b ops hs m 1 timeout k
+
+/-- **An explicit `tx.rollback()` / `tx.commit()` in the middle of a body** acts on what the block buffered so far
+and leaves the same transaction running, empty: after `enter; ops; rollback` (resp. `commit`) the backend is the
+`rollback` (resp. `commit`) of the run so far, the task is still inside the block, nothing is buffered and no lock is
+held — the commands that follow start a new segment on that backend (and take their locks again), and the end of
+the block commits or rolls back only that last segment. -/
+theorem explicit_end_midbody_starts_afresh (b : Mem) (timeout : Nat) (m : TxMode) (ops : List Op) :
+    let r := ((Ctx.init b timeout).run (.enter m :: (ops.map .cmd ++ [.rollback]))).1
+    let c := ((Ctx.init b timeout).run (.enter m :: (ops.map .cmd ++ [.commit]))).1
+    (r.inTx = true ∧ r.st = ((TxSt.begin_ b m 1 timeout).run ops).1.rollback) ∧
+    (c.inTx = true ∧ c.st = ((TxSt.begin_ b m 1 timeout).run ops).1.commit) := by
+  have : ∀ (c : Ctx) (es : List Ev) (e : Ev), (c.run (es ++ [e])).1 = ((c.run es).1.step e).1 := by
+    intro c es; induction es generalizing c with
+    | nil => intro e; rfl
+    | cons e' es ih => intro e; simp only [List.cons_append, Ctx.run]; exact ih _ e
+  simp only [Ctx.run, Ctx.step, Ctx.init, Bool.false_eq_true, if_false]
+  rw [this, this, Ctx.run_cmds ops _ rfl]
+  simp [Ctx.step, TxSt.begin_]
 
 /-! ### Non-vacuity (the sample transaction of `Props/C04.lean` meets every hypothesis used here) -/
 
@@ -229,8 +270,8 @@ example : lookup ((TxSt.begin_ sampleStore .fast 1 80).run sampleOps).1.ov.store
 
 /-- a program with blocks nested twice, an inner block left by a caught exception, flattened -/
 example : flatten 0 [.enter .fast, .cmd (.set 0 (.tok 1) none .always), .enter .locked, .enter .serializable,
-      .cmd (.incr 2 1 none), .exit true, .exit false, .cmd (.get 0), .exit false, .cmd (.get 2)] =
-    [.enter .fast, .cmd (.set 0 (.tok 1) none .always), .cmd (.incr 2 1 none), .cmd (.get 0), .exit false,
+      .cmd (.incr 2 1 none), .exit .error, .exit .ok, .cmd (.get 0), .exit .ok, .cmd (.get 2)] =
+    [.enter .fast, .cmd (.set 0 (.tok 1) none .always), .cmd (.incr 2 1 none), .cmd (.get 0), .exit .ok,
       .cmd (.get 2)] := rfl
 
 /-- a program for `reentered_object_joins` / `closed_program_leaves_objects_idle`: a shared object nested in
@@ -239,11 +280,11 @@ between, then the first object re-used for a second outermost block — closed, 
 example : (fun es : List Ev =>
       (nestAfter Nest.empty es).owner = none ∧
       flatten 0 es = [.enterObj 0 .locked, .cmd (.set 0 (.tok 1) none .always), .cmd (.incr 2 1 none), .cmd (.get 0),
-        .exit true, .enterObj 0 .locked, .cmd (.set 4 (.tok 2) none .always), .exit false])
+        .exit .error, .enterObj 0 .locked, .cmd (.set 4 (.tok 2) none .always), .exit .ok])
     [.enterObj 0 .locked, .cmd (.set 0 (.tok 1) none .always), .enterObj 0 .locked, .enterObj 0 .locked,
       .enterObj 1 .fast, .enter .serializable, .enterObj 1 .fast, .enterObj 1 .fast, .cmd (.incr 2 1 none),
-      .exit false, .exit true, .exit false, .exit false, .exit false, .exit false, .cmd (.get 0), .exit true,
-      .enterObj 0 .locked, .enterObj 0 .locked, .cmd (.set 4 (.tok 2) none .always), .exit false, .exit false] :=
+      .exit .ok, .exit .error, .exit .ok, .exit .ok, .exit .ok, .exit .ok, .cmd (.get 0), .exit .error,
+      .enterObj 0 .locked, .enterObj 0 .locked, .cmd (.set 4 (.tok 2) none .always), .exit .ok, .exit .ok] :=
   ⟨by decide, rfl⟩
 
 /-- the three-deep witness of the defect repaired by 02b4f5f: after the second and third block of the owning
@@ -253,17 +294,36 @@ example : (fun es : List Ev =>
       ((Ctx.init (Mem.init 10) 80).run es).1.inTx = true ∧
       ((Ctx.init (Mem.init 10) 80).run es).1.objs 0 = ⟨true, 0⟩ ∧
       ((Ctx.init (Mem.init 10) 80).run es).1.st.b.view 0 = none ∧
-      ((Ctx.init (Mem.init 10) 80).run (es ++ [.cmd (.set 2 (.tok 2) none .always), .exit true])).1.st.b.store = [])
+      ((Ctx.init (Mem.init 10) 80).run (es ++ [.cmd (.set 2 (.tok 2) none .always), .exit .error])).1.st.b.store = [])
     [.enterObj 0 .fast, .cmd (.set 0 (.tok 7) none .always), .enterObj 0 .fast, .enterObj 0 .fast,
-      .exit false, .exit false] := by decide
+      .exit .ok, .exit .ok] := by decide
 
 /-- the model does something on it: the first outermost block is rolled back by the exception that leaves it
 (nothing of it in the store, although the re-entered block inside it ended normally), the second one commits -/
 example : ((Ctx.init (Mem.init 10) 80).run [.enterObj 0 .locked, .cmd (.set 0 (.tok 1) none .always),
-      .enterObj 0 .locked, .cmd (.set 2 (.tok 1) none .always), .exit false, .cmd (.set 4 (.tok 1) none .always),
-      .exit true, .enterObj 0 .locked, .enterObj 0 .locked, .cmd (.set 4 (.tok 2) none .always), .exit false,
-      .exit false]).1.st.b.store = [(4, ⟨.tok 2, none⟩)] := by decide
+      .enterObj 0 .locked, .cmd (.set 2 (.tok 1) none .always), .exit .ok, .cmd (.set 4 (.tok 1) none .always),
+      .exit .error, .enterObj 0 .locked, .enterObj 0 .locked, .cmd (.set 4 (.tok 2) none .always), .exit .ok,
+      .exit .ok]).1.st.b.store = [(4, ⟨.tok 2, none⟩)] := by decide
 
 example : (Ctx.init (Mem.init 10) 80).objsIdle := fun _ => rfl
+
+/-- all four kinds of exit on one body (a write in locked mode, so a lock key is in the store while the block runs):
+only `ok` commits; an `Exception`, a non-`Exception` `BaseException` and a cancellation leave nothing, not even the lock -/
+example : ([Leave.ok, .error, .base, .cancelled].map fun how =>
+      ((Ctx.init (Mem.init 10) 80).run [.enter .locked, .cmd (.set 0 (.tok 1) none .always), .exit how]).1.st.b.store) =
+    [[(0, ⟨.tok 1, none⟩)], [], [], []] := by decide
+
+/-- the lock key really is there before the exit (so "no lock key left" says something) -/
+example : ((Ctx.init (Mem.init 10) 80).run [.enter .locked, .cmd (.set 0 (.tok 1) none .always)]).1.st.b.store.length = 1 := by
+  decide
+
+/-- explicit `commit()` mid-body, a further write, then a cancellation: the committed segment stays, the segment that
+was open when the task was cancelled is dropped -/
+example : ((Ctx.init (Mem.init 10) 80).run [.enter .serializable, .cmd (.set 0 (.tok 1) none .always), .commit,
+      .cmd (.set 2 (.tok 2) none .always), .exit .cancelled]).1.st.b.store = [(0, ⟨.tok 1, none⟩)] := by decide
+
+/-- explicit `rollback()` mid-body, a further write, normal exit: only the later segment is committed -/
+example : ((Ctx.init (Mem.init 10) 80).run [.enter .locked, .cmd (.set 0 (.tok 1) none .always), .rollback,
+      .cmd (.set 2 (.tok 2) none .always), .exit .ok]).1.st.b.store = [(2, ⟨.tok 2, none⟩)] := by decide
 
 end CashewsVerif.Props.C03
